@@ -484,7 +484,7 @@ pub fn history(cfg: &Cfg, rep: &mut Report, h: u64, steps: usize, mode: Mode) {
     let mut nev = 0u64;
     for step in 0..steps {
         if rng.chance(1, 15) {
-            let t = r.w.ledger() + 1 + rng.below(40) as u32;
+            let t = r.w.ledger() + if rng.chance(1, 10) { 600_000 } else { 1 + rng.below(40) as u32 };
             r.w.set_ledger(t);
             rep.op(format!("ledger -> {t}"));
             pre = r.observe();
